@@ -116,13 +116,28 @@ CHECKS['C07'] = {
     'technique': 'Hypothesis-generated fault/delay histories on a cluster simulator, bounded-time detection oracle',
 }
 
+CHECKS['C12'] = {
+    'engine': 'E1-clustersim',
+    'category': 'exploration',
+    'text': ('Generated cluster episodes mixing process activity from every source with handshakes, late boots, crashes, '
+             'restarts, healed cuts and one-way losses, and steps injected inside the handshake XML-RPCs; at quiescence the '
+             'instances every observer lists for every process are compared with the true process tables of the fake '
+             'Supervisors it sees RUNNING, and members of a connected group with each other. Three protocol-level root '
+             'causes found on the pinned tree are recorded as known findings (event around an asymmetric handshake, '
+             'publication lost on a failed call, quick restart not revealed by the tick counter), each recognised by a '
+             'diagnosis from harness-side records so that any other stale view is still a violation.'),
+    'design_ref': 'DESIGN.md 5/C12',
+    'note': CLUSTER_NOTE,
+    'technique': 'Hypothesis-generated histories on a cluster simulator, differential oracle against ground truth at quiescence',
+}
+
 HOOK_COMMITS = []
 
 ENGINES = [
     {'name': 'E1-clustersim', 'path': 'clustersim/', 'kind_free_text':
         'deterministic cluster simulator: N real Supvisors instances in one process on a fake OS / network / clock; '
         'Hypothesis generates configuration and history; per-property monitors',
-     'serves_properties': ['C01', 'C02', 'C07', 'C08', 'C16']},
+     'serves_properties': ['C01', 'C02', 'C07', 'C08', 'C12', 'C16']},
     {'name': 'E3-solo', 'path': 'clustersim/solo.py', 'kind_free_text':
         'one real instance with puppet peers / pure component harnesses driven by Hypothesis',
      'serves_properties': ['C11', 'C15', 'C20']},
@@ -130,5 +145,5 @@ ENGINES = [
 
 _PENDING = 'check not built yet in this round (the technique applies; see DESIGN.md section 5)'
 NOT_APPLICABLE = {pid: _PENDING for pid in
-                  ['C03', 'C04', 'C05', 'C06', 'C09', 'C10', 'C12', 'C13', 'C14',
+                  ['C03', 'C04', 'C05', 'C06', 'C09', 'C10', 'C13', 'C14',
                    'C17', 'C18', 'C19']}
